@@ -287,6 +287,7 @@ template <typename U, ct_t<T, U> (*KF)(T, U), int Q4, int WU> static void gcd_ca
     typedef ct_t<T, U> C; typedef uint_bits<(W > WU ? W : WU)> R; T m = nd<T>(); U n = nd<U>(); R d = nd<R>();
     i128 am = absi(m), an = absi(n), mx = am > an ? am : an;
     vf_assume(am <= hi_of<C> && an <= hi_of<C>); // std: |m| and |n| representable in the common type
+    if constexpr (WU > W) vf_assume(an <= TMAX); // bound of the all-pairs queries with a wider second type: |n| within the range of T (q_gcd_zero_* covers the rest)
     slice<Q4>(m);
     VF_KNOWN(C14_gcd_negative, m < 0 || n < 0);
     VF_KNOWN(C14_gcd_mixed_narrowing, (i128)T(n) != (i128)n);
@@ -311,6 +312,17 @@ template <typename U, ct_t<T, U> (*KF)(T, U), int Q4> static void gcd_std_case()
     VF_KNOWN(C14_gcd_mixed_narrowing, (i128)T(n) != (i128)n);
     if (n > 1) vf_witness("n > 1");
     vf_assert(KF(m, n) == std::gcd(m, n), "gcd == std");
+}
+// gcd with one operand 0, every type pair, the other operand over its full range (two Euclid steps): gcd(0, n) == |n|, gcd(m, 0) == |m|
+template <typename U, ct_t<T, U> (*KF)(T, U)> static void gcd_zero_case()
+{
+    typedef ct_t<T, U> C; T m = nd<T>(); U n = nd<U>();
+    vf_assume(absi(m) <= hi_of<C> && absi(n) <= hi_of<C>);
+    VF_KNOWN(C14_gcd_negative, m < 0 || n < 0);
+    VF_KNOWN(C14_gcd_mixed_narrowing, (i128)T(n) != (i128)n);
+    if (n > 1 && m > 1) vf_witness("operands > 1");
+    vf_assert((i128)KF(0, n) == absi(n), "gcd(0, n) == |n|");
+    vf_assert((i128)KF(m, 0) == absi(m), "gcd(m, 0) == |m|");
 }
 // least common multiple: 0 if an operand is 0; otherwise a positive common multiple of |m| and |n| that is <= every representable
 // common multiple c (symbolic; c <= |m| * |n| without loss of generality). Assuming that such a c exists is exactly the std
@@ -347,6 +359,7 @@ template <typename U, ct_t<T, U> (*KF)(T, U), int Q4, int WU, bool STD> static v
     Q q_gcd_##NU##_q0() { gcd_case<U, k_gcd_##NU, 0, WU>(); } Q q_gcd_##NU##_q1() { gcd_case<U, k_gcd_##NU, 1, WU>(); }        \
     Q q_gcd_##NU##_q2() { gcd_case<U, k_gcd_##NU, 2, WU>(); } Q q_gcd_##NU##_q3() { gcd_case<U, k_gcd_##NU, 3, WU>(); }        \
     Q q_gcd_std_##NU() { gcd_std_case<U, k_gcd_##NU, -1>(); }                                                          \
+    Q q_gcd_zero_##NU() { gcd_zero_case<U, k_gcd_##NU>(); }                                                            \
     Q q_lcm_##NU() { lcm_case<U, k_lcm_##NU, -1, WU, false>(); }                                                       \
     Q q_lcm_##NU##_q0() { lcm_case<U, k_lcm_##NU, 0, WU, false>(); } Q q_lcm_##NU##_q1() { lcm_case<U, k_lcm_##NU, 1, WU, false>(); } \
     Q q_lcm_##NU##_q2() { lcm_case<U, k_lcm_##NU, 2, WU, false>(); } Q q_lcm_##NU##_q3() { lcm_case<U, k_lcm_##NU, 3, WU, false>(); } \
